@@ -304,15 +304,26 @@ def region_change(S, cfg):
     new = _RegU(S, 'new', 3, n_g, S.nonneg('dp_new', 0.0, 1e4))
     asm.region = [old, new]
     asm._active_region_idx = 0
-    b = S.pos('z_boundary', 0.2, 0.8)
+    # axial planes lie on the 1e-12 m raster (C05) and steps are at least one raster unit; the region bound is as read
+    # (its plane plus the round-off of a unit conversion, of either sign)
+    from .c14 import _units
+    Kb = S.int('K_boundary', 2 * 10 ** 11, 8 * 10 ** 11)
+    N = S.int('N_step', 10 ** 9, 2 * 10 ** 10)
+    noise = S.real('bound_noise', -0.4, 0.4)
+    S.assume(Kb >= 1, 'the boundary lies above the core inlet')
+    S.assume(N >= 1, 'a step is at least one raster unit')
+    S.assume(noise <= 0.4, 'conversion noise below 0.4 raster units')
+    S.assume(noise >= -0.4, 'conversion noise below 0.4 raster units')
+    plane_b = _units(S, Kb)
+    b = plane_b + _units(S, noise)
     asm.region_bnd = [0, b]
     asm._pressure_drop = S.nonneg('dp_acc', 0.0, 1e4)
     dp0 = asm._pressure_drop
-    z_next = b + S.pos('dz', 0.001, 0.02)
+    z_next = _units(S, Kb + N)
     t_gap = S.vec('Tg', n_g, 'pos', 600.0, 900.0)
     h_gap = S.vec('hg', n_g, 'pos', 1e4, 1e5)
     S.holds('change.detected', bool(asm.check_region_update(z_next)))
-    S.holds('change.not_detected_inside_region', not asm.check_region_update(b))
+    S.holds('change.not_detected_inside_region', not asm.check_region_update(plane_b))
     asm.update_region(z_next, t_gap, h_gap, adiabatic)
     S.holds('change.new_region_active', asm._active_region_idx == 1)
     S.holds('change.activated_once_from_old', len(new.activated) == 1 and new.activated[0]['previous'] is old
